@@ -605,4 +605,72 @@ def Header.applyOps (h : Header) : List BuilderOp → Option Header
     | none => none
     | some h' => h'.applyOps ops
 
+
+/-! ### Known writer defects (specification side of C18)
+
+A defect is a modification of the raw header a correct writer would have produced.  They are the
+ones `Header::from_raw` / `fix_based_on_file_len` name in their comments. -/
+
+inductive Defect where
+  /-- DX10 `array_size := a` (0 for one element; 6 for one cube; anything for a 3D texture) -/
+  | arraySize (a : Nat)
+  /-- `mipmap_count := m` (off by one, 0, 1 or a full chain although the file has a different number) -/
+  | mipCount (m : Nat)
+  /-- the MIPMAP_COUNT flag and the COMPLEX / MIPMAP caps are missing, so the count is ignored -/
+  | dropMipFlags
+  /-- header size 24 (Stalker 2) -/
+  | headerSize24
+  /-- pixel-format size 0 or 24 (Flat Out 2) -/
+  | pfSize (n : Nat)
+  /-- pixel format flags without `FOURCC` on a four-CC file (Unreal Tournament 2004) -/
+  | pfFlags (f : Nat)
+  /-- `misc_flags2 := v` with an alpha mode outside 0..4 -/
+  | miscFlags2 (v : Nat)
+deriving DecidableEq, Repr, Inhabited
+
+/-- clear a single-bit flag -/
+def clearBit (x m : Nat) : Nat := if bitSet x m then x - m else x
+
+def Defect.apply (d : Defect) (r : RawHeader) : RawHeader :=
+  match d with
+  | .arraySize a => { r with dx10 := r.dx10.map fun e => { e with arraySize := a } }
+  | .mipCount m => { r with mipmapCount := m }
+  | .dropMipFlags => { r with flags := clearBit r.flags DDSD_MIPMAPCOUNT,
+                              caps := clearBit (clearBit r.caps CAPS_COMPLEX) CAPS_MIPMAP }
+  | .headerSize24 => { r with size := 24 }
+  | .pfSize n => { r with pixelFormat := { r.pixelFormat with size := n } }
+  | .pfFlags f => { r with pixelFormat := { r.pixelFormat with flags := f } }
+  | .miscFlags2 v => { r with dx10 := r.dx10.map fun e => { e with miscFlags2 := v } }
+
+def Defect.applyAll (ds : List Defect) (r : RawHeader) : RawHeader := ds.foldl (fun r d => d.apply r) r
+
+/-- the mip count `from_raw` reads from a raw count -/
+def parsedMips (m : Nat) : Nat := if m = 0 then 1 else m
+
+/-- a four-CC pixel format whose code is not `FourCC::NONE` -/
+def Dx9PixelFormat.isNamedFourCC : Dx9PixelFormat → Bool
+  | .fourCC c => c != FOURCC_NONE
+  | .mask _ => false
+
+/-- When a defect counts as "the known defect" for the true header `h`. -/
+def Defect.Applies (d : Defect) (h : Header) : Prop :=
+  match d, h with
+  | .arraySize a, .dx10 x =>
+    a < U32 ∧ x.arraySize = 1 ∧
+      (a = 0 ∨ (a = 6 ∧ x.resourceDimension = .tex2D ∧ bitSet x.miscFlag MISC_TEXTURE_CUBE = true) ∨
+        x.resourceDimension = .tex3D)
+  | .arraySize _, .dx9 _ => False
+  | .mipCount m, h => m < U32 ∧ h.mipmapCount ∈ (h.setMipmapCount (parsedMips m)).mipGuesses
+  | .dropMipFlags, h => h.mipmapCount ∈ (h.setMipmapCount 1).mipGuesses
+  | .headerSize24, _ => True
+  | .pfSize n, _ => n = 0 ∨ n = 24
+  | .pfFlags f, .dx9 x =>
+    f < U32 ∧ bitSet f PF_FOURCC = false ∧ x.pixelFormat.isNamedFourCC = true
+  | .pfFlags _, .dx10 _ => False
+  | .miscFlags2 v, .dx10 _ => v < U32 ∧ 5 ≤ v % 8
+  | .miscFlags2 _, .dx9 _ => False
+
+instance (d : Defect) (h : Header) : Decidable (d.Applies h) := by
+  cases d <;> cases h <;> simp only [Defect.Applies] <;> exact inferInstance
+
 end Dds
